@@ -47,6 +47,14 @@ def apply(m, oracle, op):
     elif k == "deletes":
         m.delete_agents(list(op[1]))
         oracle["agents"] = [a for a in oracle["agents"] if a[0] not in op[1]]
+    elif k == "churn":
+        # several operations with no query in between: delete some agents and create as many (population size unchanged)
+        m.delete_agents(list(op[1]))
+        gone = [a for a in oracle["agents"] if a[0] in op[1]]
+        oracle["agents"] = [a for a in oracle["agents"] if a[0] not in op[1]]
+        for _ in range(len(gone)):
+            m.create_agent(op[2], None)
+            oracle["agents"].append([oracle["next"], op[2], "active"]); oracle["next"] += 1
     elif k == "configure":
         m.configure_agents([{"name": t, "count": c} for t, c in op[1]])
         oracle["agents"] = []
@@ -141,6 +149,8 @@ def gen_ops(rnd, n, weights):
             ops.append(('delete', rnd.randint(0, max(0, nxt))))
         elif k == 'deletes':
             ops.append(('deletes', tuple(sorted({rnd.randint(0, max(0, nxt)) for _ in range(rnd.randint(0, 3))}))))
+        elif k == 'churn':
+            ops.append(('churn', tuple(sorted({rnd.randint(0, max(0, nxt)) for _ in range(rnd.randint(1, 3))})), rnd.choice(TYPES))); nxt += 3
         elif k == 'configure':
             spec = [(rnd.choice(TYPES), rnd.randint(0, 2)) for _ in range(rnd.randint(0, 3))]
             ops.append(('configure', tuple(spec))); nxt += sum(c for _, c in spec)
@@ -168,7 +178,7 @@ def shrink(ops):
 def main():
     hint = load_hint()
     rnd = random.Random(hint.get('seed', 0))
-    weights = dict(create=4, creates=2, delete=3, deletes=2, configure=1, reset=1, state=3)
+    weights = dict(create=4, creates=2, delete=3, deletes=2, configure=1, reset=1, state=3, churn=2)
     for f in hint.get('functions', []):
         for k in list(weights):
             if k.rstrip('s') in f or (k == 'configure' and 'configure' in f) or (k == 'reset' and 'reset' in f):
